@@ -1,10 +1,14 @@
 """C09 — isolation of module classes, instances and configurations: implementation driver, encoder, direct oracle
 
 A case is a little program: class definitions (module classes and plain mixins, single/multiple inheritance,
-overrides by Parameter(), bare value, None, inherit=False, commands overridden by plain methods), instantiations
-with configuration, and run-time mutations of one instance (setProperty on a parameter, enum growth through the
-real HasControlledBy.register_input).  After every op the driver records the full description of every module
-class and every instance (delta encoded)."""
+overrides by Parameter(), bare value, None, inherit=False; commands cmd() / go(FloatRange) / calc(StructOf(a, b)) with
+argument and result datatypes, overridden by Command(...) without signature, by plain methods with other defaults, by
+None), instantiations with configuration (parameters and commands), and run-time mutations of one instance (setProperty
+on a parameter, on a member datatype, on the argument / result datatype of a command; input registration and enum
+growth through the real HasControlledBy.register_input reading the real class attribute inputCallbacks).  After every op
+the driver records the full description of every module class and every instance (delta encoded), incl. the registered
+inputs; at the end the identity pattern of Parameter / Command / datatype objects.  The Coq case carries the program
+twice: for the parameter component (Model.v) and for the command / mixin component (CmdModel.v)."""
 import hashlib
 import json
 import os
@@ -16,15 +20,21 @@ ID = 'C09'
 MODEL_TARGETS = ['theories/C09/Run.vo']
 PROOF_TARGETS = ['theories/C09/Properties.vo']
 PROPERTIES_V = 'theories/C09/Properties.v'
-IMPORTS = 'Require Import FV.Gen.C09 FV.C09.Model FV.C09.Run.'
+IMPORTS = 'Require Import FV.Gen.C09 FV.C09.Model FV.C09.CmdModel FV.C09.Run.'
 CASE_TYPE = 'case'
 CHECK = 'check_case'
-SHARD_SIZE = 250
+SHARD_SIZE = 150
 RULE = ('programs of 3..12 ops over {define class (module class or plain mixin; 0..2 bases out of the classes defined '
         'so far, only consistent MROs; per attribute value/p/q/controlled_by/cmd one of Parameter(datatype..), '
         'Parameter(overriding properties incl. datatype properties min/max/unit), inherit=False, bare value, None, '
         'Command, plain method), instantiate (class, configuration overriding parameter and datatype properties, some '
         'invalid), setProperty on one parameter of one instance, HasControlledBy.register_input on one instance}; '
+        'commands cmd / go (FloatRange argument) / calc (StructOf(a, b) argument) with optional float result: per class body '
+        'Command(signature)(f), Command(description..)(f) without signature, plain method with defaults for none/b/a/a+b '
+        '(Command.__call__ marks them optional), None; configuration of a command description; run-time setProperty(min/max) '
+        'on the argument / a struct member / the result of a command of one instance; a fixed family of 36 programs '
+        '(method override below a struct command with instances before and after; run-time change on one of several '
+        'instances; inputs registered on two instances of one / two classes and an instance created afterwards) runs first; '
         'additionally (implementation + oracle only) parameters r (+ Limit r_limits), lim (LimitsType), tup (TupleOf), arr (ArrayOf), '
         'st (StructOf with a nested TupleOf), status (StatusType) with $ units in the members, several instances of one class '
         'with different main units, configuration of member units, setProperty on a MEMBER datatype of one instance; a fixed '
@@ -34,16 +44,28 @@ RULE = ('programs of 3..12 ops over {define class (module class or plain mixin; 
         'op lists')
 ASSUMPTIONS = [
     'every Parameter/Command object is written in exactly one class body (no `p = Base.p` re-use of one object in two class bodies)',
-    'the Coq model knows flat datatypes only (FloatRange with integral bounds/values, EnumType).  Container and convenience '
-    'datatypes (TupleOf, ArrayOf, StructOf, LimitsType, Limit parameters, StatusType), `$` units / applyMainUnit, Commands and '
+    'the parameter model knows flat datatypes only (FloatRange with integral bounds/values, EnumType).  Container and convenience '
+    'datatypes of PARAMETERS (TupleOf, ArrayOf, StructOf, LimitsType, Limit parameters, StatusType), `$` units / applyMainUnit and '
     'the order of accessibles are generated and DECIDED BY THE DIRECT ORACLE on the implementation: description comparison '
     '(nested datainfo included) of every class and instance after every op and against the isolated replay, plus a recursive '
     'identity traversal (members / argument / result) that reports every changeable object shared between an instance and a '
     'class or another instance; the deep-copy shape of every DataType.copy override is an obligation on the source (fact '
     'datatype_copy_rebuilds)',
     'class bodies whose definition raises are outside the domain: a generated program ends before the first such definition (it happens when a bare-value override copies an inherited datatype that datatype property overrides made inconsistent)',
-    'instances are modelled by value (their Parameter and datatype objects are private copies); that no object is '
-    'shared between an instance and anything else is checked on the implementation (identity traversal) in every case',
+    'PARAMETERS of instances are modelled by value (their Parameter and datatype objects are private copies); that no object is '
+    'shared between an instance and anything else is checked on the implementation (identity traversal) in every case.  '
+    'COMMANDS: argument / result datatype objects of classes and instances are cells of one heap in CmdModel.v (sharing is '
+    'expressible, its absence is theorem C09_command_datatypes_isolated); a StructOf argument is ONE cell holding the member '
+    'limits and the optional list (sharing of member objects between two struct objects is decided by the identity traversal '
+    'of the oracle only); modelled command properties: description, argument, result (group / visibility / export: oracle only)',
+    'mixin state: the generated module classes get a per-world stand-in of frappy.mixins.HasControlledBy into their MRO that '
+    'carries the REAL register_input / self_controlled / update_target functions and a per-world copy of the REAL class '
+    'attribute inputCallbacks; its accessibles (controlled_by, target) are written by the generated programs.  The callbacks '
+    'themselves are never called (only the registered names are observed); HasOutputModule has no class level state of its '
+    'own (fact mixins_no_mutable_class_attribute) and reaches this state only through output_module.register_input',
+    'whether Module.__init__ accepts a configuration is decided by the parameter component and handed to the command '
+    'component with the op (generated commands always have a description; check_case verifies that an accepted instance '
+    'is acceptable for the command component)',
 ]
 
 NAMES = ['value', 'p', 'q', 'controlled_by']       # modelled parameter names, code = index
@@ -52,8 +74,14 @@ EXTRA = ['r', 'lim', 'tup', 'arr', 'st', 'status']
 XUNITS = ['$', '$/min', 'K', '']
 ENUM_NAME = 'controlled_by'
 CMD = 'cmd'
+# modelled commands (CmdModel.v), code = index: cmd takes no argument, go a FloatRange, calc a StructOf(a, b)
+CMDS = ['cmd', 'go', 'calc']
+MEMBERS = {'a': 1, 'b': 2}            # struct member name -> code
+DEFAULTS = [[], ['b'], ['a', 'b'], ['a']]     # parameters of the decorated function that have a default
+RUNTIME_OPS = ('setprop', 'grow', 'setmember', 'setarg')
 PKEYS = {'description': 0, 'group': 1, 'value': 2, 'min': 3, 'max': 4, 'unit': 5}
 PROBES = [-100, -7, -3, -1, 0, 1, 2, 3, 5, 7, 10, 100]
+CMD_PROBES = [-7, 0, 3, 8, 30, {'a': 1, 'b': 2}, {'a': 1}, {'b': 8}, {}, {'a': 30, 'b': -7}]
 
 
 # ------------------------------------------------------------------ string <-> code
@@ -169,6 +197,18 @@ def _describe_acc(name, o, inst=None):
         d['exp'] = _canon(o.for_export())
     except Exception as e:
         d['exp'] = type(e).__name__
+    if inst is not None and d['k'] == 'C':
+        # validation behaviour of the command: what its argument datatype says to a few transported values
+        pr = []
+        arg = o.argument
+        for x in ([None] if arg is None else CMD_PROBES):
+            try:
+                if arg is not None:
+                    arg.validate(arg.import_value(x))
+                pr.append('ok')
+            except Exception as e:
+                pr.append(type(e).__name__)
+        d['probe'] = pr
     if inst is not None and d['k'] == 'P':
         dt = o.datatype
         pr = []
@@ -184,20 +224,29 @@ def _describe_acc(name, o, inst=None):
         return d
     # compact form (memory): the raw values the model compares + a digest of everything the oracle compares
     full = {k: v for k, v in d.items() if k != 'pv'}
-    c = {'n': name, 'k': d['k'], 'pv': {k: v for k, v in d['pv'].items() if k in ('description', 'group', 'value', 'datatype')},
+    c = {'n': name, 'k': d['k'], 'pv': {k: v for k, v in d['pv'].items() if k in ('description', 'group', 'value', 'datatype', 'argument', 'result')},
          'h': hashlib.md5(json.dumps(full, sort_keys=True, default=str).encode()).hexdigest()[:16]}
     if 'given' in d:
         c['given'] = d['given']
     return c
 
 
+def _inputs(x):
+    """names registered in what `x.inputCallbacks` evaluates to (mixin state of HasControlledBy)"""
+    try:
+        return [str(k) for k in getattr(x, 'inputCallbacks', ())]
+    except Exception as e:
+        return [type(e).__name__]
+
+
 def _describe_class(cls):
-    return {'acc': [_describe_acc(n, o) for n, o in cls.accessibles.items()]}
+    return {'acc': [_describe_acc(n, o) for n, o in cls.accessibles.items()], 'inputs': _inputs(cls)}
 
 
 def _describe_inst(inst):
     return {'acc': [_describe_acc(n, o, inst) for n, o in inst.accessibles.items()],
-            'props': {k: _canon(v) for k, v in sorted(inst.propertyValues.items()) if k != 'implementation'}}
+            'props': {k: _canon(v) for k, v in sorted(inst.propertyValues.items()) if k != 'implementation'},
+            'inputs': _inputs(inst)}
 
 
 class _World:
@@ -212,6 +261,16 @@ class _World:
         self.pinned = []
         self.ids = {}
         self.own = []           # (class idx, name, Parameter object, original export of its own datatype)
+        # the mixin state of frappy.mixins.HasControlledBy: a stand-in class per world carrying the REAL methods and
+        # (a per-world copy of) the REAL class attribute `inputCallbacks`; every generated module class has it in its
+        # MRO.  The accessibles of the mixin (controlled_by, target) are written by the generated programs instead,
+        # because the real Parameter objects of the mixin would be merged in place (known finding) across cases.
+        import copy
+        from frappy.mixins import HasControlledBy
+        ns = {k: v for k, v in HasControlledBy.__dict__.items()
+              if k in ('register_input', 'self_controlled', 'update_target')}
+        ns['inputCallbacks'] = copy.copy(HasControlledBy.__dict__.get('inputCallbacks', ()))
+        self.hcb = type(tag + 'HasControlledBy', (), ns)
 
     def reg(self, o):
         from frappy.datatypes import ValueType
@@ -231,6 +290,43 @@ class _World:
                 kw['unit'] = s_unit(spec[3])
             return FloatRange(spec[1], spec[2], **kw)
         return EnumType(members={s_mem(n): v for n, v in spec[1]})
+
+    def mk_cdt(self, spec):
+        """argument / result datatype of a command"""
+        from frappy.datatypes import FloatRange, StructOf
+        if spec is None:
+            return None
+        if spec[0] == 'float':
+            return FloatRange(spec[1], spec[2])
+        return StructOf(**{m: FloatRange(lo, hi) for m, lo, hi in spec[1]})
+
+    def mk_func(self, attr, defaults, doc):
+        """the function a Command decorates / the plain method overriding a command: cmd(self), go(self, value),
+        calc(self, a, b) with defaults for the listed parameters"""
+        defaults = sorted(defaults or [])
+        if attr == 'calc':
+            if defaults == ['a', 'b']:
+                def f(self, a=0, b=1):
+                    return None
+            elif defaults == ['b']:
+                def f(self, a, b=1):
+                    return None
+            elif defaults == ['a']:
+                def f(self, b, a=0):
+                    return None
+            else:
+                def f(self, a, b):
+                    return None
+        elif attr == 'go':
+            def f(self, value):
+                return None
+        else:
+            def f(self):
+                return None
+        f.__name__ = attr
+        if doc is not None:
+            f.__doc__ = doc if isinstance(doc, str) else f'doc{doc}'
+        return f
 
     def mk_xdt(self, kind, unit):
         from frappy.datatypes import FloatRange, IntRange, StringType, BoolType, TupleOf, ArrayOf, StructOf, \
@@ -285,27 +381,27 @@ class _World:
                 body[attr] = None
             elif kind == 'cmd':
                 s = e[1]
-
-                def f(self):
-                    return None
-                f.__name__ = attr
-                if s.get('doc'):
-                    f.__doc__ = s['doc']
+                f = self.mk_func(attr, s.get('defaults'), s.get('doc'))
                 kw = {}
                 if s.get('desc') is not None:
                     kw['description'] = s_desc(s['desc'])
                 if s.get('group') is not None:
                     kw['group'] = s_group(s['group'])
-                body[attr] = Command(inherit=s.get('inherit', True), **kw)(f)
+                sig = s.get('sig')
+                if sig:
+                    arg, res = self.mk_cdt(sig.get('arg')), self.mk_cdt(sig.get('res'))
+                    if arg is not None:
+                        body[attr] = Command(arg, result=res, inherit=s.get('inherit', True), **kw)(f)
+                    else:
+                        body[attr] = Command(result=res, inherit=s.get('inherit', True), **kw)(f)
+                else:
+                    body[attr] = Command(inherit=s.get('inherit', True), **kw)(f)
             elif kind == 'method':
-                def g(self):
-                    """plain method"""
-                    return None
-                g.__name__ = attr
-                body[attr] = g
+                s = e[1] if len(e) > 1 else {'doc': 0}
+                body[attr] = self.mk_func(attr, s.get('defaults'), s.get('doc'))
         bases = tuple(self.classes[b] for b in c['bases'])
         if c['module'] and not any(self.module[b] for b in c['bases']):
-            bases = bases + (Module,)
+            bases = bases + (self.hcb, Module)
         cls = type(f'{self.tag}C{idx}', bases, body)
         for attr, o in created:
             self.own.append((idx, attr, o, _dtexport(o.ownProperties['datatype'])))
@@ -361,17 +457,31 @@ class _World:
                     except Exception as e:
                         info['exc'] = 'skip'
                         info['why'] = f'{type(e).__name__}: {str(e)[:100]}'
+            elif kind == 'setarg':
+                # ['setarg', inst, command, 'argument'|'result', None|member, 'min'|'max', v]: a datatype property of
+                # the argument / result of the command of ONE instance is changed at run time
+                from frappy.datatypes import FloatRange, StructOf
+                inst = self.insts[op[1]] if op[1] < len(self.insts) else None
+                cobj = inst.commands.get(op[2]) if inst is not None else None
+                dt = getattr(cobj, op[3], None) if cobj is not None else None
+                if op[4] is None:
+                    target = dt if isinstance(dt, FloatRange) else None
+                else:
+                    target = dt.members.get(op[4]) if isinstance(dt, StructOf) else None
+                if target is None:
+                    info['exc'] = 'skip'
+                else:
+                    target.setProperty(op[5], op[6])
+                    cobj.finish()
             elif kind == 'grow':
-                from frappy.mixins import HasControlledBy
                 from frappy.datatypes import EnumType
                 inst = self.insts[op[1]] if op[1] < len(self.insts) else None
                 if inst is None or ENUM_NAME not in inst.parameters or \
                         not isinstance(inst.parameters[ENUM_NAME].datatype, EnumType):
                     info['exc'] = 'skip'
                 else:
-                    if not hasattr(inst, 'inputCallbacks'):
-                        inst.inputCallbacks = ()     # class attribute of the mixin; here on the one instance only
-                    HasControlledBy.register_input(inst, s_mem(op[2]), lambda *a: None)
+                    # the real HasControlledBy.register_input, bound through the stand-in mixin in the MRO
+                    inst.register_input(s_mem(op[2]), lambda *a: None)
         except Exception as e:
             info['exc'] = f'{type(e).__name__}: {str(e)[:200]}'
             if kind == 'class':
@@ -407,6 +517,28 @@ class _World:
                     o = inst.accessibles.get(n)
                     if o is not None:
                         vec.append([f'i{i}', n, self.reg(o), self.reg(o.propertyValues.get('datatype')), -1])
+        return vec
+
+    def xidvector(self):
+        """identity of the Command objects of the classes and of the argument / result datatype objects of classes
+        (propertyValues and ownProperties) and instances"""
+        from frappy.params import Command
+        vec = []
+        for i, cls in enumerate(self.classes):
+            if cls is not None and self.module[i]:
+                for n in CMDS:
+                    o = cls.accessibles.get(n)
+                    if isinstance(o, Command):
+                        pv, own = o.propertyValues, o.ownProperties or {}
+                        vec.append([f'c{i}', n, self.reg(o), self.reg(pv.get('argument')), self.reg(pv.get('result')),
+                                    self.reg(own.get('argument')), self.reg(own.get('result'))])
+        for i, inst in enumerate(self.insts):
+            if inst is not None:
+                for n in CMDS:
+                    o = inst.accessibles.get(n)
+                    if isinstance(o, Command):
+                        vec.append([f'i{i}', n, self.reg(o.propertyValues.get('argument')),
+                                    self.reg(o.propertyValues.get('result'))])
         return vec
 
     def own_mutated(self):
@@ -472,7 +604,7 @@ class _World:
 _counter = [0]
 
 
-def _exec(case, keep_classes=None, keep_inst=None):
+def _exec(case, keep_classes=None, keep_inst=None, final_only=False):
     """run the ops (all, or only those of one class chain / one instance) and return (world, per-op infos, deltas)"""
     _counter[0] += 1
     w = _World(f'T{_counter[0]}_')
@@ -501,18 +633,22 @@ def _exec(case, keep_classes=None, keep_inst=None):
         info = w.run_op(op)
         if info.get('abort'):
             break
+        infos.append(info)
+        if final_only:
+            continue
         snap = w.snapshot()
         deltas.append([[k, v] for k, v in snap.items() if prev.get(k) != v])
         prev = snap
-        infos.append(info)
         muts.append(w.own_mutated())
+    if final_only:
+        prev = w.snapshot()
     return w, infos, deltas, muts, prev, cmap
 
 
 def run_case(case):
     w, infos, deltas, muts, final, _ = _exec(case)
     case = {'ops': case['ops'][:len(infos)]}     # truncated where a class definition raised
-    obs = {'ops': infos, 'deltas': deltas, 'own_mut': muts, 'ids': w.idvector(),
+    obs = {'ops': infos, 'deltas': deltas, 'own_mut': muts, 'ids': w.idvector(), 'xids': w.xidvector(),
            'inst_shared': w.shared_with_instances()}
     # the description of every class / instance when only its own chain (and its own ops) exist
     iso = {}
@@ -527,17 +663,20 @@ def run_case(case):
         if w.classes[i] is None or not w.module[i] or mros.get(i) is None:
             continue
         chain = set(mros[i])
-        _, _, _, _, fin, cmap = _exec(case, keep_classes=chain, keep_inst=-1)
+        _, _, _, _, fin, cmap = _exec(case, keep_classes=chain, keep_inst=-1, final_only=True)
         iso[f'c{i}'] = fin.get(f'c{cmap[i]}')
     for k, inst in enumerate(w.insts):
         if inst is None:
             continue
         ci = w.inst_cls[k]
         chain = set(mros[ci])
-        _, _, _, _, fin, cmap = _exec(case, keep_classes=chain, keep_inst=k)
+        _, _, _, _, fin, cmap = _exec(case, keep_classes=chain, keep_inst=k, final_only=True)
         iso[f'i{k}'] = fin.get('i0')
     obs['iso_diff'] = {ent: changed_names(iso.get(ent), desc) for ent, desc in final.items()
                        if strip(iso.get(ent)) != strip(desc)}
+    # the modelled part of the commands that differ, as they are in the isolated replay (read by a classifier)
+    obs['iso_cmd'] = {ent: {n: _cmd_pv(iso.get(ent), n) for n in names if n in CMDS}
+                      for ent, names in obs['iso_diff'].items() if any(n in CMDS for n in names)}
     return obs
 
 
@@ -584,6 +723,8 @@ def changed_names(a, b):
         names = ['*order']
     if not names and a.get('props') != b.get('props'):
         names = ['*props']
+    if not names and a.get('inputs') != b.get('inputs'):
+        names = ['*inputs']
     return names
 
 
@@ -608,7 +749,8 @@ def oracle(case, obs):
             if ent in state and ent not in addressed and strip(state[ent]) != strip(desc):
                 what = {'class': 'defining a class', 'inst': 'creating and configuring an instance',
                         'setprop': 'changing a property of one instance', 'grow': 'extending the enum of one instance',
-                        'setmember': 'changing a property of a member datatype of one instance'}[kind]
+                        'setmember': 'changing a property of a member datatype of one instance',
+                        'setarg': 'changing a datatype property of the argument/result of a command of one instance'}[kind]
                 fails.append({'class': ('class' if ent[0] == 'c' else 'instance') + '-changed-by-' + kind,
                               'what': f'op {t} ({what}: {op[1] if kind != "class" else new}) changed the description of '
                                       f'{ent}: accessibles {changed_names(state[ent], desc)}',
@@ -708,7 +850,74 @@ def f_own_datatype(case, obs, failure):
     return all(any((b, n) in mut and leak_input(b, n) for b in mro) for n in names)
 
 
-def f_either(case, obs, failure):
+def _cmd_pv(desc, n):
+    for a in (desc or {}).get('acc', []):
+        if a['n'] == n and a['k'] == 'C':
+            return a['pv']
+    return None
+
+
+def _desc_at(obs, ent, t):
+    """description of an entity after op t (None before it exists)"""
+    d = None
+    for dl in obs['deltas'][:t + 1]:
+        for e, x in dl:
+            if e == ent:
+                d = x
+    return d
+
+
+def _only_optional_differs(p, q):
+    """two command descriptions (modelled part) that differ in the optional list of the struct argument only"""
+    def core(pv):
+        pv = json.loads(json.dumps(pv))
+        pv.pop('datatype', None)        # CommandType(argument, result): derived
+        arg = pv.get('argument')
+        if not arg or not isinstance(arg[1], dict) or arg[1].get('type') != 'struct':
+            return pv, None
+        return pv, sorted(arg[1].pop('optional', list(arg[1]['members'])))
+    if p is None or q is None:
+        return False
+    (a, oa), (b, ob) = core(p), core(q)
+    return a == b and oa is not None and ob is not None and oa != ob
+
+
+def f_method_reset(case, obs, failure):
+    """the changed accessible is a command that a class in the MRO of the entity overrides by a PLAIN METHOD (no class
+    nearer to the entity gives a new signature), a subclass of that class was defined, and the descriptions differ in
+    the optional list of the struct argument only: the re-merge at the definition of the subclass replaced the
+    argument of the method-overridden Command by the one of the base (ownProperties of the clone lack it)"""
+    names = failure['names']
+    if not names or any(n not in CMDS for n in names):
+        return False
+    ent = failure['entity']
+    ci = _class_of(case, ent)
+    cl = class_ops(case)
+    mros = mro_of(case, obs)
+    mro = mros[ci] or []
+    for n in names:
+        hit = False
+        for pos, m in enumerate(mro):        # most derived first
+            es = [e for a, e in cl[m]['dict'] if a == n]
+            if not es:
+                continue
+            if es[0][0] == 'cmd' and es[0][1].get('sig'):
+                break
+            if es[0][0] == 'method':
+                hit = any(v != m and m in (mros[v] or []) for v in range(len(cl)))
+                break
+        if not hit:
+            return False
+        if failure['class'].endswith('-depends-on-others'):
+            a, b = _cmd_pv(_desc_at(obs, ent, len(obs['deltas'])), n), (obs.get('iso_cmd', {}).get(ent) or {}).get(n)
+        else:
+            a, b = _cmd_pv(_desc_at(obs, ent, failure['op'] - 1), n), _cmd_pv(_desc_at(obs, ent, failure['op']), n)
+        if not _only_optional_differs(a, b):
+            return False
+    return True
+
+
+def _normalise(case, obs, failure):
     names = failure['names']
     if names == ['*'] and failure['entity'][0] == 'i':
         # the instance exists in only one of the two worlds: explained iff the description of its class differs
@@ -716,15 +925,41 @@ def f_either(case, obs, failure):
         ent = f'c{_class_of(case, failure["entity"])}'
         names = obs['iso_diff'].get(ent, [])
         failure = dict(failure, names=names)
+    if failure['entity'][0] == 'i' and 'value' in names:
+        # `$` in the units of other parameters is replaced by the unit of `value` when the instance is created: they
+        # differ as a consequence whenever the unit of `value` does
+        names = [n for n in names if n not in EXTRA and n != 'r_limits']
+        failure = dict(failure, names=names)
+    return failure
+
+
+def _covered(case, obs, failure, n):
+    f1 = dict(failure, names=[n])
+    return f_inplace_merge(case, obs, f1) or f_own_datatype(case, obs, f1) or f_method_reset(case, obs, f1)
+
+
+def f_either(case, obs, failure):
+    failure = _normalise(case, obs, failure)
+    names = failure['names']
     if not names or any(n.startswith('*') for n in names):
         return False
-    return all(f_inplace_merge(case, obs, dict(failure, names=[n])) or f_own_datatype(case, obs, dict(failure, names=[n]))
-               for n in names)
+    return all(_covered(case, obs, failure, n) for n in names)
+
+
+def f_any_reset(case, obs, failure):
+    failure = _normalise(case, obs, failure)
+    return any(f_method_reset(case, obs, dict(failure, names=[n])) for n in failure['names'])
+
+
+def f_own_dt(case, obs, failure):
+    return f_own_datatype(case, obs, _normalise(case, obs, failure))
 
 
 FINDING_CLASSIFIERS = {
-    'inplace_merge_of_shared_accessible': lambda c, o, f: f_either(c, o, f) and not f_own_datatype(c, o, f),
-    'value_override_mutates_inherited_own_datatype': lambda c, o, f: f_own_datatype(c, o, f),
+    'inplace_merge_of_shared_accessible':
+        lambda c, o, f: f_either(c, o, f) and not f_own_dt(c, o, f) and not f_any_reset(c, o, f),
+    'value_override_mutates_inherited_own_datatype': lambda c, o, f: f_own_dt(c, o, f),
+    'method_override_of_command_reset_by_subclass': lambda c, o, f: f_either(c, o, f) and f_any_reset(c, o, f),
 }
 
 
@@ -744,8 +979,8 @@ def enc_dtspec(spec):
 def enc_entry(e):
     if e[0] == 'param':
         s = e[1]
-        return ('(EParam {| s_desc := %s; s_dt := %s; s_inherit := %s; s_group := %s; s_value := %s; '
-                's_min := %s; s_max := %s; s_unit := %s |})' % (
+        return ('(EParam (Build_pspec %s %s %s %s %s '
+                '%s %s %s))' % (
                     oz(s.get('desc')), enc_dtspec(s.get('dt')), gal.boolean(s.get('inherit', True)), oz(s.get('group')),
                     oz(s.get('value')), oz(s.get('min')), oz(s.get('max')), oz(s.get('unit'))))
     if e[0] == 'value':
@@ -769,7 +1004,7 @@ def model_acc(a):
             mem = sorted(([code(k), v] for k, v in info['members'].items()), key=lambda p: p[1])
         else:
             kind = 9
-    return '(%s, {| a_desc := %s; a_group := %s; a_value := %s; a_dt := mkdt %s %s %s %s %s |})' % (
+    return '(%s, Build_acc_desc %s %s %s (mkdt %s %s %s %s %s))' % (
         gal.nat(NAMES.index(a['n'])), oz(code(pv.get('description'))), oz(code(pv.get('group'))),
         oz(pv.get('value') if a.get('given', True) else None), gal.nat(kind), oz(mn), oz(mx), gal.z(unit),
         gal.lst(mem, lambda p: gal.pair(p, gal.z, gal.z)))
@@ -791,11 +1026,11 @@ def enc_op(op, info):
         d = [(a, e) for a, e in c['dict'] if a in NAMES and e[0] in ('param', 'value', 'none')]
         if info.get('mro') is None:
             raise ValueError('class definition raised: %s' % info['exc'])
-        return '(ODefine {| d_module := %s; d_mro := %s; d_dict := %s |})' % (
+        return '(ODefine (Build_cdef %s %s %s))' % (
             gal.boolean(c['module']), gal.lst(info['mro'], gal.nat),
             gal.lst(d, lambda p: f'({gal.nat(NAMES.index(p[0]))}, {enc_entry(p[1])})'))
-    if k == 'setmember':
-        return '(OSetProp %s 99%%nat 0%%nat (0)%%Z)' % gal.nat(op[1])     # not modelled: no effect on the modelled part
+    if k in ('setmember', 'setarg'):
+        return '(OSetProp %s 99%%nat 0%%nat (0)%%Z)' % gal.nat(op[1])     # no effect on the part modelled in Model.v
     if k == 'inst':
         cfg = [(n, kvs) for n, kvs in op[2] if n in NAMES]
         return '(OInst %s %s)' % (gal.nat(op[1]), gal.lst(cfg, lambda p: '(%s, %s)' % (
@@ -804,6 +1039,110 @@ def enc_op(op, info):
     if k == 'setprop':
         return '(OSetProp %s %s %s %s)' % (gal.nat(op[1]), gal.nat(NAMES.index(op[2])), gal.nat(PKEYS[op[3]]), gal.z(op[4]))
     return '(OGrow %s %s)' % (gal.nat(op[1]), gal.z(op[2]))
+
+
+# ---- command / mixin component (CmdModel.v)
+def xcode(s):
+    """description of a command -> code: '' 0, 'd5' 5, 'doc3' 103, 'doc a' 111, 'plain method' 100"""
+    if s is None:
+        return None
+    if s == '':
+        return 0
+    if s == 'plain method':
+        return 100
+    if s.startswith('doc '):
+        return 111 + ord(s[4]) - ord('a')
+    if s.startswith('doc'):
+        return 100 + int(s[3:])
+    return int(s[1:])
+
+
+def doc_code(doc):
+    if doc is None:
+        return None
+    return 100 + doc if isinstance(doc, int) else xcode(doc)
+
+
+def enc_lim(lo, hi):
+    return f'({oz(lo)}, {oz(hi)})'
+
+
+def enc_cdt(spec):
+    """a datatype written in a class body (a new StructOf has every member optional until a function is decorated)"""
+    if spec[0] == 'float':
+        return '(mkcdt 1%%nat %s %s [] [])' % (oz(spec[1]), oz(spec[2]))
+    mem = [(MEMBERS[m], lo, hi) for m, lo, hi in spec[1]]
+    return '(mkcdt 2%%nat None None %s %s)' % (
+        gal.lst(mem, lambda x: f'({gal.z(x[0])}, {enc_lim(x[1], x[2])})'), gal.lst(sorted(x[0] for x in mem), gal.z))
+
+
+def enc_cdt_obs(x):
+    """an observed argument / result datatype (exported description) as option cdt"""
+    if x is None:
+        return 'None'
+    info = x[1]
+    if isinstance(info, dict) and info.get('type') == 'double':
+        return '(Some (mkcdt 1%%nat %s %s [] []))' % (oz(info.get('min')), oz(info.get('max')))
+    if isinstance(info, dict) and info.get('type') == 'struct':
+        mem = [(MEMBERS.get(k, 99), v.get('min'), v.get('max')) for k, v in info['members'].items()]
+        opt = sorted(MEMBERS.get(k, 99) for k in info.get('optional', list(info['members'])))
+        return '(Some (mkcdt 2%%nat None None %s %s))' % (
+            gal.lst(mem, lambda m: f'({gal.z(m[0])}, {enc_lim(m[1], m[2])})'), gal.lst(opt, gal.z))
+    return '(Some (mkcdt 9%nat None None [] []))'
+
+
+def enc_defaults(d):
+    return gal.lst(sorted(MEMBERS[m] for m in (d or [])), gal.z)
+
+
+def enc_xentry(name, e):
+    if e[0] == 'cmd':
+        s = e[1]
+        sig = s.get('sig')
+        if sig:
+            sg = '(Some (%s, %s))' % tuple('None' if sig.get(k) is None else '(Some %s)' % enc_cdt(sig[k])
+                                           for k in ('arg', 'res'))
+        else:
+            sg = 'None'
+        return '(XECmd (Build_cspec %s %s %s %s))' % (
+            oz(s.get('desc')), sg, oz(doc_code(s.get('doc'))), enc_defaults(s.get('defaults') if name == 'calc' else []))
+    if e[0] == 'method':
+        s = e[1] if len(e) > 1 else {'doc': 0}
+        return '(XEFunc %s %s)' % (oz(doc_code(s.get('doc'))), enc_defaults(s.get('defaults') if name == 'calc' else []))
+    return 'XENone'
+
+
+def enc_xop(op, info):
+    k = op[0]
+    if k == 'class':
+        c = op[1]
+        d = [(a, e) for a, e in c['dict'] if a in CMDS and e[0] in ('cmd', 'method', 'none')]
+        return '(XDefine (Build_xcdef %s %s %s))' % (
+            gal.boolean(c['module']), gal.lst(info['mro'], gal.nat),
+            gal.lst(d, lambda p: f'({gal.nat(CMDS.index(p[0]))}, {enc_xentry(p[0], p[1])})'))
+    if k == 'inst':
+        cfg = [(CMDS.index(n), dict((a, b) for a, b in kvs)['description']) for n, kvs in op[2] if n in CMDS]
+        return '(XInst %s %s %s)' % (gal.nat(op[1]), gal.boolean(info['exc'] is None),
+                                     gal.lst(cfg, lambda p: f'({gal.nat(p[0])}, {gal.z(p[1])})'))
+    if k == 'setarg':
+        return '(XSetArg %s %s %s %s %s %s)' % (
+            gal.nat(op[1]), gal.nat(CMDS.index(op[2])), gal.boolean(op[3] == 'result'),
+            'None' if op[4] is None else f'(Some {gal.z(MEMBERS[op[4]])})', gal.nat(PKEYS[op[5]]), gal.z(op[6]))
+    if k == 'grow' and info['exc'] is None:
+        return '(XRegister %s %s)' % (gal.nat(op[1]), gal.z(op[2]))
+    return 'XNop'
+
+
+def xmodel_cmd(a):
+    pv = a['pv']
+    return '(%s, Build_cmd_desc %s %s %s)' % (
+        gal.nat(CMDS.index(a['n'])), oz(xcode(pv.get('description'))), enc_cdt_obs(pv.get('argument')),
+        enc_cdt_obs(pv.get('result')))
+
+
+def xmodel_desc(desc):
+    cmds = sorted((a for a in desc['acc'] if a['k'] == 'C' and a['n'] in CMDS), key=lambda a: CMDS.index(a['n']))
+    return '(%s, %s)' % (gal.lst(cmds, xmodel_cmd), gal.lst(desc.get('inputs', []), lambda s: gal.z(code(s))))
 
 
 def canon_ids(vec):
@@ -819,15 +1158,30 @@ def canon_ids(vec):
 
 
 def encode(case, obs):
-    ops, dl, oks = [], [], []
+    ops, dl, oks, xops, xdl = [], [], [], [], []
+    last = {}
+
+    def changed(comp, delta, enc):
+        """the entities of a delta whose description in this component really differs from the one sent last"""
+        out = []
+        for ent, desc in delta:
+            s = enc(desc)
+            if last.get((comp, ent)) != s:
+                last[(comp, ent)] = s
+                out.append(f'({enc_ent(ent)}, {s})')
+        return '[' + '; '.join(out) + ']'
     for op, info, delta in zip(case['ops'], obs['ops'], obs['deltas']):
-        if info['exc'] and op[0] in ('setprop', 'grow', 'setmember') and info['exc'] != 'skip':
+        if info['exc'] and op[0] in RUNTIME_OPS and info['exc'] != 'skip':
             raise ValueError('run-time op raised: ' + info['exc'])
         ops.append(enc_op(op, info))
         oks.append(gal.boolean(info['exc'] is None))
-        dl.append(gal.lst(delta, lambda p: f'({enc_ent(p[0])}, {model_desc(p[1])})'))
-    return '{| c_ops := [%s]; c_ok := [%s]; c_deltas := [%s]; c_ids := %s |}' % (
-        '; '.join(ops), '; '.join(oks), '; '.join(dl), gal.lst(canon_ids(obs['ids']), gal.nat))
+        dl.append(changed('p', delta, model_desc))
+        xops.append(enc_xop(op, info))
+        xdl.append(changed('x', delta, xmodel_desc))
+    return ('(Build_case [%s] [%s] [%s] %s '
+            '[%s] [%s] %s)') % (
+        '; '.join(ops), '; '.join(oks), '; '.join(dl), gal.lst(canon_ids(obs['ids']), gal.nat),
+        '; '.join(xops), '; '.join(xdl), gal.lst(canon_ids(obs['xids']), gal.nat))
 
 
 def model_result_term(case, obs):
@@ -850,6 +1204,9 @@ def outcome_labels(case, obs):
             labs.add('mixin' if not c['module'] else ('multi-inheritance' if len(c['bases']) > 1 else 'class'))
             for a, e in c['dict']:
                 labs.add('entry-' + e[0] + ('-noinherit' if e[0] in ('param', 'cmd') and not e[1].get('inherit', True) else ''))
+                if a in CMDS and e[0] in ('cmd', 'method'):
+                    labs.add(f'{a}-' + e[0] + ('-signature' if e[0] == 'cmd' and e[1].get('sig') else '')
+                             + ('-defaults' if len(e) > 1 and e[1].get('defaults') else ''))
         else:
             labs.add(op[0] + ('' if info['exc'] is None else ('-skipped' if info['exc'] == 'skip' else '-rejected')))
     if any(obs['own_mut']):
@@ -894,13 +1251,32 @@ def rand_dt(rng, name):
     return ['float', lo, hi, rng.choice([0, 0, 1, 2])]
 
 
+def rand_csig(rng, name):
+    """signature of a command: cmd() [-> float], go(FloatRange) [-> float], calc(StructOf(a, b)) [-> float]"""
+    res = rng.choice([None, None, ['float', 0, 100], ['float', None, None]])
+    if name == 'go':
+        return {'arg': ['float', rng.choice([None, 0, -5]), rng.choice([None, 10, 20])], 'res': res}
+    if name == 'calc':
+        return {'arg': ['struct', [['a', rng.choice([None, 0]), rng.choice([None, 10])],
+                                   ['b', rng.choice([None, -5]), rng.choice([None, 5, 20])]]], 'res': res}
+    return {'arg': None, 'res': res} if res is not None and rng.random() < 0.5 else None
+
+
 def rand_entry(rng, name, with_dt):
-    if name == CMD:
+    if name in CMDS:
         r = rng.random()
-        if with_dt or r < 0.4:
-            return ['cmd', {'desc': rng.choice([1, 2, 3]), 'group': rng.choice([None, None, 1]),
-                            'doc': rng.choice([None, 'doc a', 'doc b'])}]
-        return ['method'] if r < 0.8 else ['none']
+        defaults = rng.choice(DEFAULTS) if name == 'calc' else []
+        if with_dt or r < 0.5:
+            s = {'desc': rng.choice([1, 2, 3, None]), 'group': rng.choice([None, None, 1]),
+                 'doc': rng.choice([None, 1, 2]), 'defaults': defaults}
+            if s['desc'] is None and s['doc'] is None:
+                s['doc'] = 3                      # a command always gets a description (else no instance can exist)
+            if with_dt or r < 0.25:
+                s['sig'] = rand_csig(rng, name)   # else: Command(description=...) overriding without a signature
+            return ['cmd', s]
+        if r < 0.88:
+            return ['method', {'doc': rng.choice([None, 0, 4]), 'defaults': defaults}]
+        return ['none']
     r = rng.random()
     if with_dt or r < 0.2:
         s = {'desc': rng.choice([1, 2, 3, None]) if not with_dt else rng.choice([1, 2, 3]),
@@ -935,6 +1311,7 @@ class _Gen:
         self.rng = rng
         self.module, self.bases, self.has_dt, self.has_any = [], [], [], []
         self.x_def, self.x_none = [], []      # extra names fully defined / removed somewhere in the ancestor closure
+        self.c_def, self.c_none = [], []      # commands defined by Command(...) / removed somewhere in the closure
 
     def new_class(self):
         rng = self.rng
@@ -951,7 +1328,9 @@ class _Gen:
         dt = set().union(*[self.has_dt[b] for b in bases]) if bases else set()
         anyn = set().union(*[self.has_any[b] for b in bases]) if bases else set()
         d = []
-        for name in NAMES + [CMD]:
+        cd = set().union(*[self.c_def[b] for b in bases]) if bases else set()
+        cn = set().union(*[self.c_none[b] for b in bases]) if bases else set()
+        for name in NAMES + CMDS:
             known = name in dt
             if module:
                 p = 0.45 if known else 0.5
@@ -967,6 +1346,10 @@ class _Gen:
                 anyn.add(name)
                 if e[0] == 'cmd' or (e[0] == 'param' and e[1].get('dt')):
                     dt = dt | {name}
+                if name in CMDS and e[0] == 'cmd':
+                    cd = cd | {name}
+                if name in CMDS and e[0] == 'none':
+                    cn = cn | {name}
         xd = set().union(*[self.x_def[b] for b in bases]) if bases else set()
         xn = set().union(*[self.x_none[b] for b in bases]) if bases else set()
         for name in EXTRA:
@@ -995,10 +1378,15 @@ class _Gen:
         self.has_any.append(anyn)
         self.x_def.append(xd)
         self.x_none.append(xn)
+        self.c_def.append(cd)
+        self.c_none.append(cn)
         return {'module': module, 'bases': bases, 'dict': d}
 
     def sure_extras(self, ci):
         return sorted(self.x_def[ci] - self.x_none[ci])
+
+    def sure_cmds(self, ci):
+        return sorted(self.c_def[ci] - self.c_none[ci])
 
 
 MEMBER_PATHS = {'r': [[]], 'r_limits': [[0]], 'lim': [[0], [1]], 'tup': [[0]], 'arr': [['m']], 'st': [['a'], ['b', 0]]}
@@ -1038,6 +1426,13 @@ def rand_cfg0(rng, names):
     return cfg
 
 
+def rand_setarg(rng, ii, name):
+    which = 'result' if rng.random() < 0.15 else 'argument'
+    path = rng.choice(['a', 'b']) if (name == 'calc' and which == 'argument') else None
+    key, v = rng.choice([['max', 5], ['max', 7], ['min', 1], ['min', -20], ['max', 50]])
+    return ['setarg', ii, name, which, path, key, v]
+
+
 def rand_case(rng, nops=None):
     nops = nops or rng.randint(3, 12)
     ops = []
@@ -1052,9 +1447,13 @@ def rand_case(rng, nops=None):
             ops.append(['class', g.new_class()])
         elif r < 0.66 or not inst_cls:
             ci = rng.choice(inst_cls) if inst_cls and rng.random() < 0.45 else rng.choice(mods)
-            ops.append(['inst', ci, rand_cfg(rng, g.has_any[ci]) + rand_xcfg(rng, g.sure_extras(ci))])
+            ccfg = [[n, [['description', rng.choice([7, 8])]]] for n in g.sure_cmds(ci) if rng.random() < 0.12]
+            ops.append(['inst', ci, rand_cfg(rng, g.has_any[ci]) + rand_xcfg(rng, g.sure_extras(ci)) + ccfg])
             inst_cls.append(ci)
-        elif r < 0.74 and any(g.sure_extras(c) for c in inst_cls):
+        elif r < 0.72 and any(set(g.sure_cmds(c)) & {'go', 'calc'} for c in inst_cls):
+            ii = rng.choice([k for k, c in enumerate(inst_cls) if set(g.sure_cmds(c)) & {'go', 'calc'}])
+            ops.append(rand_setarg(rng, ii, rng.choice(sorted(set(g.sure_cmds(inst_cls[ii])) & {'go', 'calc'}))))
+        elif r < 0.78 and any(g.sure_extras(c) for c in inst_cls):
             ii = rng.choice([k for k, c in enumerate(inst_cls) if g.sure_extras(c)])
             name = rng.choice(g.sure_extras(inst_cls[ii]))
             if name == 'r' and rng.random() < 0.4:
@@ -1130,15 +1529,60 @@ def nested_cases():
     return out
 
 
+def cmd_cases():
+    """fixed programs about command argument / result datatypes and the mixin state, always run first:
+    (A) a command with a struct argument overridden below by a plain method / by Command(...) with other defaults,
+        instances of the base class before and after;  (B) a datatype property of the argument / result of ONE
+        instance changed at run time, other instances before and after;  (C) inputs registered on two instances of one
+        class / of two classes, an instance created afterwards"""
+    out = []
+    val = ['param', {'desc': 1, 'dt': ['float', 0, 10, 1], 'inherit': True}]
+    cby = ['param', {'desc': 2, 'dt': ['enum', [[0, 0]]], 'inherit': True, 'value': 0}]
+    calc = ['cmd', {'desc': 1, 'sig': {'arg': ['struct', [['a', None, None], ['b', 0, 10]]], 'res': ['float', None, None]},
+                    'defaults': []}]
+    go = ['cmd', {'doc': 1, 'sig': {'arg': ['float', 0, 10], 'res': ['float', 0, 100]}}]
+    base = ['class', {'module': True, 'bases': [], 'dict': [['value', val], ['go', go], ['calc', calc]]}]
+    for defaults in DEFAULTS[1:]:
+        for over in (['method', {'doc': None, 'defaults': defaults}], ['method', {'doc': 4, 'defaults': defaults}],
+                     ['cmd', {'desc': 2, 'defaults': defaults}]):
+            for mid in (False, True):
+                ops = [base, ['inst', 0, []]]
+                if mid:     # a class in between overriding without a signature
+                    ops.append(['class', {'module': True, 'bases': [0], 'dict': [['calc', ['cmd', {'desc': 3, 'defaults': []}]]]}])
+                ops.append(['class', {'module': True, 'bases': [len(ops) - 2], 'dict': [['calc', over], ['go', ['method', {'doc': None}]]]}])
+                ops += [['inst', 0, []], ['inst', len(ops) - 2, [['calc', [['description', 7]]]]]]
+                out.append({'ops': ops})
+    for name, which, path in (('go', 'argument', None), ('go', 'result', None), ('calc', 'argument', 'a'),
+                              ('calc', 'argument', 'b'), ('calc', 'result', None)):
+        for sub in (False, True):
+            ops = [base]
+            ci = 0
+            if sub:
+                ops.append(['class', {'module': True, 'bases': [0], 'dict': [[name, ['method', {'doc': 0, 'defaults': ['b']}]]]}])
+                ci = 1
+            ops += [['inst', ci, []], ['inst', ci, []], ['setarg', 0, name, which, path, 'max', 5], ['inst', ci, []],
+                    ['inst', 0, []], ['setarg', 3, name, which, path, 'min', 1]]
+            out.append({'ops': ops})
+    out0 = ['class', {'module': True, 'bases': [], 'dict': [['value', val], ['controlled_by', cby]]}]
+    out1 = ['class', {'module': True, 'bases': [], 'dict': [['value', val], ['controlled_by', cby], ['go', go]]}]
+    for second in (0, 1):
+        for order in ([0, 1], [1, 0], [0, 0, 1], [1, 0, 1]):
+            ops = [out0, out1, ['inst', 0, []], ['inst', second, []]]
+            ops += [['grow', i, 1001 + k] for k, i in enumerate(order)]
+            ops += [['inst', 0, []], ['grow', 2, 1009], ['inst', second, []]]
+            out.append({'ops': ops})
+    return out
+
+
 def gen_cases(seed, tier):
     rng = random.Random(seed * 1000003 + 9)
-    n = {'quick': 3000, 'thorough': 24000, 'search': 24000}[tier]
+    n = {'quick': 2000, 'thorough': 24000, 'search': 24000}[tier]
     cases = [rand_case(rng) for _ in range(n)]
     ex = exhaustive_cases()
     if tier == 'quick':
         rng2 = random.Random(seed + 99)
-        ex = rng2.sample(ex, 300)
-    return nested_cases() + cases + ex
+        ex = rng2.sample(ex, 200)
+    return cmd_cases() + nested_cases() + cases + ex
 
 
 def shrink(case):
@@ -1164,11 +1608,11 @@ def shrink(case):
             yield {'ops': ops[:i] + rest}
         elif op[0] == 'inst':
             ii = sum(1 for o in ops[:i] if o[0] == 'inst')
-            if any(o[0] in ('setprop', 'grow', 'setmember') and o[1] == ii for o in ops[i + 1:]):
+            if any(o[0] in RUNTIME_OPS and o[1] == ii for o in ops[i + 1:]):
                 continue
             rest = []
             for o in ops[i + 1:]:
-                if o[0] in ('setprop', 'grow', 'setmember') and o[1] > ii:
+                if o[0] in RUNTIME_OPS and o[1] > ii:
                     o = [o[0], o[1] - 1] + list(o[2:])
                 rest.append(o)
             yield {'ops': ops[:i] + rest}
